@@ -60,7 +60,7 @@ CLAIMED = {
          "rest back), and a lock key survives only if a command of the exit phase itself failed. The BODY keeps the lock bookkeeping in step with the store for any program "
          "over data keys and any fault set (per-backend invariant BI), which gives the end-to-end theorem: after the block no lock-shaped key is left in any involved store "
          "unless a command issued after the body failed. The correspondence enumerates EVERY single fault "
-         "position (and pairs) of 36 program/mode combinations against the real code with raising wrappers, in three spellings of the block.",
+         "position (and pairs) of 36 program/mode combinations against the real code with raising wrappers, in three spellings of the block, and in half of the cases on a backend with latency (a command that succeeds takes an event-loop turn, one that fails fails at once).",
          "A fault = the command raises an Exception with no effect (BaseException-class faults are outside: a second one during rollback skips the remaining backends); single task; set iteration order of lock keys taken from the clean run.",
          "Coq proof (release protocol for arbitrary fault sets) + exhaustive single/pair fault enumeration against the real code", "3/C16"),
  "C03": ("Theorems over the Gallina image of TransactionBackend (overlay, pending deletes, commit, rollback) on the TTL-map spec: no transactional command "
@@ -82,16 +82,19 @@ CLAIMED = {
          "Proved for every history WITHOUT TTLs (where F20 cannot arise), every registry and order of writes: after delete_tags(t) no key whose latest write carried t "
          "is readable (invariant: every present key is a member of the set of each tag of its latest write); and for every history without TTLs whose tags are registered "
          "for their keys (where F21 cannot arise): delete_tags(t) leaves untouched every key that has not carried t since its last removal (second invariant). "
+         "Proved WITH TTLs (keys and tag sets with any deadlines, lazy expiry at every step, time-ordered history): F20 is the only way TTLs break completeness - in every "
+         "history in which no tagged write leaves a tag set with a deadline earlier than that of one of its live members (Run.C12.excl_f20 = false, the predicate by which "
+         "the check classifies F20), after delete_tags(t) at any later time no key whose latest write carried t is readable (third invariant, carried through expiry). "
          "The model (tags.py + Memory set commands + on-remove callback with lazy expiry made deterministic by probing) is compared with the real facade step by "
          "step; any oracle failure not containing a recorded situation (Run.C12.excl_f20 / excl_f21 on the shrunk history) is reported as a violation.",
-         "Completeness with TTLs holds only when no tagged write shortens a set below a live member (F20): that conditional statement is not proved; precision fails for unregistered tags (F21) and is proved for registered ones without TTLs. Partial.",
+         "Completeness fails with TTLs exactly in the F20 situation (refuted there, proved everywhere else); precision fails for unregistered tags (F21) and is proved for registered ones without TTLs (not with TTLs). Partial.",
          "Coq proof (partial + refutation witnesses) + differential correspondence + known-finding predicates", "3/C12"),
  "C15": ("Theorems over the Gallina image of rate.py, rate_slide.py, Memory.slice_incr and circuit_breaker.py on the TTL-map spec, each as an invariant plus a "
          "one-call statement: rate_limit runs a call only if fewer than `limit` ran in the counter's current life, whose deadline is period after the first call / ttl "
          "after the first rejection; slice_rate_limit (strictly increasing instants) never runs a call that has `limit` executed calls in the period before it; the "
          "breaker's window logs hold exactly the calls of the last period, it never runs the function while open, and opens exactly when a listed failure meets "
          "min_calls and errors_rate on those counts. Real decorators on the facade are driven under the virtual clock with bursts/gaps on window boundaries.",
-         "half_open_ttl=None; integer form of the errors_rate comparison; concurrency argued (atomic counter results) but only sequential histories are modelled.",
+         "half_open_ttl=None; integer form of the errors_rate comparison; rate_limit is also proved at backend-command granularity (any order and delay of the incr / expire commands of any number of concurrent calls: an admitted call is at most the limit-th of the counter's life); sliding window and breaker are modelled for sequential histories (concurrent bursts of the two limiters are run against the real code at one instant).",
          "Coq proof (epoch / window-log invariants) + differential correspondence under virtual time", "3/C15"),
  "C14": ("Theorems over the Gallina image of the four decision trees on the TTL-map spec, each as an invariant plus a one-call statement valid in every state "
          "satisfying it: early never serves a result stored ttl or more ago, serves without running while younger than early_ttl, and starts a refresh only "
